@@ -2686,6 +2686,8 @@ impl LineBuf {
 					let start = self.start_of_line();
 					let mut indices = start..self.cursor.max;
 					let mut first_graphical = None;
+					// Where the line's text ends: its newline, or the end of the buffer
+					let mut line_end = self.cursor.max;
 					while let Some(idx) = indices.next() {
 						let grapheme = self.grapheme_at(idx).unwrap();
 						if !is_whitespace(grapheme) {
@@ -2693,11 +2695,17 @@ impl LineBuf {
 							break
 						}
 						if grapheme == "\n" {
+							line_end = idx;
 							break
 						}
 					}
 					let Some(first) = first_graphical else {
-						return MotionKind::Null
+						// A line of blanks only: 'I' inserts after them, '^' lands on the last one
+						return if verb.is_some() {
+							MotionKind::On(line_end)
+						} else {
+							MotionKind::On(line_end.saturating_sub(1).max(start))
+						}
 					};
 					MotionKind::On(first)
 				}
